@@ -147,6 +147,17 @@ add("C19", "lifecycle-sim", "exploration",
     "Trusted: the reference records returned indices (generated names are not predicted). Only the required references listed in the module "
     "are made dangling.", "DESIGN.md section 4, C19")
 
+add("C20", "lifecycle-sim", "exploration",
+    "deterministic simulation: seeded construction / save / cold-restart histories over the real configuration space with seeded delivery channels, negative and truncated-file variants; every tds-sim run of the other checks also delivers its knobs through seeded channels",
+    "Partial claim (delivery, precedence, coercion, save/restart, rejection as exercised by seeded plans; not an exhaustive field x value "
+    "enumeration). Each plan draws fields from the ~400 real config fields of System, routines and models, gives them values of their own "
+    "type and delivers them by option string, private rc file, System(config=...) or option+file with different values. The value in effect "
+    "must be the highest-precedence one with the documented coercion, untouched fields keep defaults, save_config -> new System reproduces "
+    "every field in value and type (also after changes on the config object), out-of-alternative values and malformed options raise, and a "
+    "truncated rc file never yields a silently different value.",
+    "Trusted: the field catalogue (names, defaults, alternatives) is read from a default System of the current tree.",
+    "DESIGN.md section 4, C20")
+
 ENGINES = [
     {"name": "tds-sim", "path": "dst/tdssim.py", "kind_free_text": "real TDS loop under StepTap/SolverTap/TimerTap/StoreTap/ConnTap "
      "seams with seeded plans (events, segments, restarts, solver/disk/clock faults, crash points)", "serves_properties": []},
